@@ -1,3 +1,4 @@
+import GBS.Extracted.Mixture
 import GBS.Model.Parse
 import GBS.Lemmas.DistRoundTrip
 import GBS.Lemmas.RoundTrip
@@ -146,5 +147,11 @@ theorem C01_distribution_roundtrip (a b : Rat) (ha : DistNumOK a) (hb : DistNumO
 theorem C01_uniform_roundtrip (a b : Rat) (ha : TokOK (intStr a) a) (hb : TokOK (intStr b) b) (hta : truncRat a = a) (htb : truncRat b = b) :
     parseDist (printDist { fam := .uniform, params := [a, b] }) = .ok { fam := .uniform, params := [a, b] } :=
   dist_uniform_roundtrip a b ha hb hta htb
+
+/-- **C01 / C12 (tie by translation: the printed mixture)**: `printMixX` is regenerated on every run from the if-chain and the f-strings of
+`Mixture.generate_string` (mixture.py:89-94); it is the model's `printMix`, the text the mixture round-trip theorems above are about. -/
+theorem C01_translated_printMix (m : PMix) (ext : Bool) : printMixX m ext = printMix m ext := by
+  unfold printMixX printMix
+  cases ext <;> cases ha : m.abs <;> simp <;> rfl
 
 end GBS.P
